@@ -1808,6 +1808,71 @@ Proof.
   exists b1', b2'. split; [congruence|]. split; [exact HD' | exact HL'].
 Qed.
 
+(* ---- the returned cells are pairwise distinct --------------------------------------------------- *)
+Lemma prov_closed : forall ch, prov ch = map (fun c => (last ch 0, c)) (rev (removelast ch)).
+Proof.
+  induction ch as [|k r IH]; [reflexivity|].
+  destruct r as [|c r']; [reflexivity|].
+  change (prov (k :: c :: r')) with (prov (c :: r') ++ [(last (c :: r') 0, k)]).
+  rewrite IH. change (removelast (k :: c :: r')) with (k :: removelast (c :: r')).
+  change (last (k :: c :: r') 0) with (last (c :: r') 0).
+  cbn [rev]. rewrite map_app. reflexivity.
+Qed.
+
+Lemma prov_inj : forall k r r', prov (k :: r) = prov (k :: r') -> r = r'.
+Proof.
+  intros k r r' H. rewrite !prov_closed in H.
+  assert (HA : rev (removelast (k :: r)) = rev (removelast (k :: r'))).
+  { apply (f_equal (map snd)) in H. rewrite !map_map in H. cbn [snd] in H. rewrite !map_id in H. exact H. }
+  apply (f_equal (@rev Z)) in HA. rewrite !rev_involutive in HA.
+  destruct r as [|c r0], r' as [|c' r0']; try reflexivity.
+  - cbn in HA. destruct r0'; discriminate.
+  - cbn in HA. destruct r0; discriminate.
+  - assert (HL : last (k :: c :: r0) 0 = last (k :: c' :: r0') 0).
+    { rewrite HA in H. change (removelast (k :: c' :: r0')) with (k :: removelast (c' :: r0')) in H.
+      cbn [rev] in H. rewrite !map_app in H. apply app_inj_tail in H. destruct H as [_ H].
+      exact (f_equal fst H). }
+    assert (E : k :: c :: r0 = k :: c' :: r0').
+    { rewrite (app_removelast_last 0 (l := k :: c :: r0)) by discriminate.
+      rewrite (app_removelast_last 0 (l := k :: c' :: r0')) by discriminate.
+      rewrite HA, HL. reflexivity. }
+    inversion E. reflexivity.
+Qed.
+
+Lemma Forall2_In_l : forall {A B} (R : A -> B -> Prop) l m a,
+  Forall2 R l m -> In a l -> exists b, In b m /\ R a b.
+Proof.
+  intros A B R l m a H. induction H as [|x y l m Hxy H IH]; intros Hin; [destruct Hin|].
+  destruct Hin as [<-|Hin]; [exists y; split; [left; reflexivity | exact Hxy]|].
+  destruct (IH Hin) as (b & Hb & Hr). exists b. split; [right; exact Hb | exact Hr].
+Qed.
+
+Lemma returned_keys_distinct : forall s du s' key ks chs,
+  Forall2 (Represents s du s' key) ks chs -> NoDup chs ->
+  (forall ch, In ch chs -> exists r, ch = key :: r) -> NoDup ks.
+Proof.
+  intros s du s' key ks chs H. induction H as [|k ch ks chs Hr H IH]; intros Hnd Hhd; [constructor|].
+  inversion Hnd as [|? ? Hnin Hnd']; subst. constructor.
+  - intros Hin. destruct (Forall2_In_l _ _ _ _ H Hin) as (ch' & Hch' & Hr').
+    destruct Hr as (ncl & _ & H1 & _ & _ & H4 & _). destruct Hr' as (ncl' & _ & H1' & _ & _ & H4' & _).
+    rewrite H1 in H1'. inversion H1'; subst ncl'. rewrite H4 in H4'.
+    destruct (Hhd ch (or_introl eq_refl)) as (r & ->).
+    destruct (Hhd ch' (or_intror Hch')) as (r' & ->).
+    rewrite (prov_inj _ _ _ H4') in Hnin. exact (Hnin Hch').
+  - apply IH; [exact Hnd' | intros c Hc; apply Hhd; right; exact Hc].
+Qed.
+
+(* with universe lists that repeat no cell, pot_fill returns pairwise distinct cells: together
+   with Verdict, exactly one returned cell stands for the located descent *)
+Theorem outcome_keys_distinct : forall s du s' key ks chs,
+  (forall u, NoDup (du_get u du)) ->
+  Paths s du key chs -> Forall2 (Represents s du s' key) ks chs -> NoDup ks.
+Proof.
+  intros s du s' key ks chs Hdu HP HF.
+  destruct (proj1 (Paths_NoDup s du Hdu) key chs HP) as [Hnd Hhd].
+  exact (returned_keys_distinct s du s' key ks chs HF Hnd Hhd).
+Qed.
+
 (* ---- the precedence rule, from the keyword tokens ----------------------------------------------- *)
 Section Precedence.
 Variable mk : list Z -> T.
